@@ -346,6 +346,21 @@ func (m *Monitors) stepInvariants(n *Node, pre Pre) {
 			}
 		}
 	}
+	// C17 (node level): the consumer is asked about a proposal of height H by the term of height H - the prevBlock the library hands
+	// over is the block that term was started from (a call for H made with the previous block of another height comes from another
+	// height's term, i.e. a message reached the protocol logic of a term of the wrong height)
+	if m.on("C17") {
+		for _, vc := range n.BU.Validates[pre.ValLen:] {
+			if want := fakes.BlockID(m.prevBlockOf(n, uint64(vc.H))); vc.PrevID != want {
+				m.fail("C17", "proposal-handled-by-term-of-other-height", "node %d: ValidateBlockProposal for height %d was called with prevBlock %q, but the term of that height was started from %q", n.Idx, vc.H, vc.PrevID, want)
+			}
+		}
+		for _, pc := range n.BU.Proposals[pre.PropLen:] {
+			if want := fakes.BlockID(m.prevBlockOf(n, uint64(pc.H))); pc.PrevID != want {
+				m.fail("C17", "proposal-handled-by-term-of-other-height", "node %d: RequestNewBlockProposal for height %d was called with prevBlock %q, but the term of that height was started from %q", n.Idx, pc.H, pc.PrevID, want)
+			}
+		}
+	}
 	// C17 (node level): nothing is stored for a height the node was not at during this step; and a node that is not a member of a
 	// height's committee has no term logic for that height at all - whatever stores or sends there is another height's term
 	for _, sm := range n.Sent[pre.SentLen:] {
